@@ -32,6 +32,11 @@ impl Stack {
         self.stack.is_empty()
     }
 
+    #[cfg(filecoin_project_builtin_actors_verif)]
+    pub fn as_slice(&self) -> &[U256] {
+        &self.stack
+    }
+
     #[inline(always)]
     pub fn push_unchecked(&mut self, value: U256) {
         self.stack.push(value);
